@@ -60,6 +60,8 @@ func runC16(c *Ctx) {
 		R.Ob("dataCloser/Write is the embedded writer's", where, promoted, "dataCloser declares its own Write method: the message passes through it before the DotWriter, one Write call at a time")
 	}
 
+	ruleRenderVerbatim(c) // "exactly the sender and recipient list given"
+
 	R.Rule("R-close-once", "E2", "dataCloser.Close: the closed test guards the end-of-data exchange, and closed=true is stored on every path that performed it before the function can return", 3)
 	if f := c.A.Func("(*dataCloser).Close"); f != nil {
 		inner := s.Find(f, "icall:iface:(io.WriteCloser).Close")
